@@ -81,6 +81,7 @@ fn main() {
                     };
                     trand(&mut g, &mut r, &cfg);
                 }
+                "tmid" => tmid(&mut g, &mut r, if thorough { 40000 } else { 2500 }),
                 "dsmall" => {
                     exhaustive = true;
                     if thorough {
